@@ -41,6 +41,7 @@ class Generator {
   std::vector<std::string> varNames{ "a", "b", "c", "d" };
   size_t repsPerKey{ 2 };
   bool bothDeep{ true };    // depth 2: binary constructors with BOTH operands non-leaf (false: at most one operand is non-leaf)
+  std::set<std::string> skipCalls{ "F5", "F6", "F7", "P2", "P3" };   // callables only reached from curated texts (kept out of the call enumeration)
   size_t bodyReps{ 3 };     // representatives per (constructor, type) kept in binder bodies
   EnvChecker checker;
   mutable std::map<std::string, std::pair<std::vector<Typed>, std::vector<Typed>>> bodyCache;
@@ -142,7 +143,7 @@ class Generator {
       consider(mkidx(K::Filter, { 1, 2 }, { p.node, q.node, a.node }));
     }
     // calls of the context's callables
-    for (auto& [name, g] : ctx.globals) if (g.args.has_value()) {
+    for (auto& [name, g] : ctx.globals) if (g.args.has_value() && !skipCalls.count(name)) {
       const bool pred = g.type && g.type->logic;
       const Node f = leaf(pred ? K::Predicate : K::Function, name);
       if (g.args->size() == 1) for (auto& a : S) consider(mk(K::FuncCall, { f, a.node }));
